@@ -289,7 +289,7 @@ def c14(F, R, tier):
     import c14 as mod
     mod.check(F, R)
     import c05rt
-    c05rt.check(F, R, tier, props=("C14", "C05"))
+    c05rt.check(F, R, tier, props=("C14", "C05", "C04"))
 
 
 @prop("C18",
